@@ -317,6 +317,17 @@ class TableFilter(BF.DefaultBioFilter):
         return self.table[OP.dna_to_number(dna_string, is_string=False)] == "1"
 
 
+class _TableObject(BF.DefaultBioFilter):
+    """a filter given by the table of its answers; written against the documented interface valid(self, dna_string)."""
+
+    def __init__(self, table):
+        super().__init__(screen_name="table")
+        self.table = table
+
+    def valid(self, dna_string):
+        return self.table[dna_string]
+
+
 def mk_filter(k, run, motifs, gcfloats):
     return BF.LocalBioFilter(observed_length=k,
                              max_homopolymer_runs=None if run == "-" else int(run),
@@ -355,6 +366,9 @@ def _run_impl(line, extra=None):
         # translated definitions (DswModel.Gen.*): the real function on the same wire values
         fn = getattr(OP, t[1], None) or getattr(SW, t[1], None) or getattr(GZ, t[1])
         args = [pv_dec(x) for x in t[2:]]
+        if t[1] == "find_vertices":
+            # the filter object travels as the table of its answers (lean: pyCallMethod)
+            args[1] = _TableObject(args[1])
         import contextlib
         import io
         with contextlib.redirect_stdout(io.StringIO()):      # progress monitor output (verbose=True)
